@@ -120,4 +120,46 @@ def exDoc : J := .obj [("productName", .str "demo"), ("build", .obj [("devPath",
 example : ∃ out, saveToTauri exDoc defaults = .ok out := ⟨_, rfl⟩
 example : (readTypegen exDoc).map (·.outputPath) = some "old" := by decide +kernel
 
+/-! ## which document is read -/
+
+/-- places without a readable document are passed over -/
+theorem C19_discover_skips (pre : List Place) (h : ∀ pl ∈ pre, pl = .absent ∨ pl = .unreadable) (rest : List Place) :
+    discover (pre ++ rest) = discover rest := by
+  induction pre with
+  | nil => rfl
+  | cons pl ps ih =>
+    have ih := ih (fun x hx => h x (List.mem_cons_of_mem _ hx))
+    rcases h pl List.mem_cons_self with rfl | rfl <;> simpa [discover] using ih
+
+/-- **the first readable document decides**: with a typegen block its settings are the file settings, whatever the later
+    places hold; without one the defaults are, whatever the later places hold -/
+theorem C19_discover_first_readable (pre : List Place) (h : ∀ pl ∈ pre, pl = .absent ∨ pl = .unreadable) (j : J) (rest : List Place) :
+    (discover (pre ++ .doc j :: rest)).bind readTypegen = readTypegen j := by
+  rw [C19_discover_skips pre h]
+  simp only [discover]
+  cases hr : readTypegen j with
+  | none => rfl
+  | some st => simp [hr]
+
+/-- **precedence with discovery**: flag over the discovered document over default, for every arrangement of the places -/
+theorem C19_precedence_discovered (ex : String → Bool) (fl : Flags) (pre : List Place)
+    (h : ∀ pl ∈ pre, pl = .absent ∨ pl = .unreadable) (j : J) (rest : List Place) (s : Settings)
+    (hr : resolveDiscovered ex fl (pre ++ .doc j :: rest) = .ok s) :
+    s = effective fl (readTypegen j) := by
+  unfold resolveDiscovered resolve at hr
+  rw [C19_discover_first_readable pre h j rest] at hr
+  simp only [] at hr
+  cases hv : validate ex (effective fl (readTypegen j)) with
+  | ok u => rw [hv] at hr; cases hr; rfl
+  | error e => rw [hv] at hr; cases hr
+
+/-- no readable document anywhere: flags over defaults -/
+theorem C19_no_document (ex : String → Bool) (fl : Flags) (places : List Place)
+    (h : ∀ pl ∈ places, pl = .absent ∨ pl = .unreadable) :
+    resolveDiscovered ex fl places = resolve ex fl none := by
+  unfold resolveDiscovered
+  have := C19_discover_skips places h []
+  rw [List.append_nil] at this
+  rw [this]; rfl
+
 end TG.C19
